@@ -114,7 +114,11 @@ fn long_cases_inner(ctx: &mut Ctx) {
         let w = 5 + ctx.rng.below(30);
         match prop.as_str() {
             "C01" | "C09" | "C08" | "C02" => {
-                let t = long_text(ctx, n);
+                // one time in three a single paragraph at a width of 1..3 columns (as many lines as
+                // words), otherwise paragraphs of up to forty words
+                let single = n <= 70_000 && step % 3 == 1;
+                let t = if single { long_para(ctx, n) } else { long_text(ctx, n) };
+                let w = if single { 1 + ctx.rng.below(3) } else { w };
                 let mut o = opts(ctx, w);
                 if prop == "C08" {
                     o.ii = "> ".into();
@@ -197,6 +201,29 @@ fn long_cases_inner(ctx: &mut Ctx) {
             "C06" | "C07" => {
                 let frs: Vec<F> = (0..n).map(|_| F(1.0 + ctx.rng.below(7) as f64, 1.0, 0.0)).collect();
                 let lw = vec![w as f64, (w / 2) as f64 + 3.0];
+                // optimal-fit on the same fragments: at the drawn widths and at width 1 (one
+                // fragment per line: as many LINES as fragments — a line count kept in a narrow
+                // integer shows only there)
+                #[cfg(feature = "full")]
+                if prop == "C06" {
+                    for lwo in [lw.clone(), vec![1.0]] {
+                        let d = format!("wrap_optimal_fit({} fragments, {:?}, default penalties)", n, lwo);
+                        ctx.risky(&d);
+                        let r = quiet(|| textwrap::wrap_algorithms::wrap_optimal_fit(&frs, &lwo, &textwrap::wrap_algorithms::Penalties::new()).map(|ls| ls.iter().map(|l| l.len()).collect::<Vec<_>>()));
+                        ctx.risky_done();
+                        match r {
+                            None => ctx.fail("returns normally", d, None),
+                            Some(Err(_)) => ctx.fail("no overflow error on small integers", d, None),
+                            Some(Ok(lens)) => {
+                                if !crate::props_a::is_partition(&lens, n) {
+                                    ctx.fail("ordered partition", format!("{}: {} lines holding {} fragments", d, lens.len(), lens.iter().sum::<usize>()), None);
+                                } else {
+                                    ctx.oracle_ok();
+                                }
+                            }
+                        }
+                    }
+                }
                 let d = format!("wrap_first_fit({} fragments, {:?})", n, lw);
                 let r = quiet(|| textwrap::wrap_algorithms::wrap_first_fit(&frs, &lw).iter().map(|l| l.len()).collect::<Vec<_>>());
                 let Some(lens) = r else { ctx.fail("returns normally", d, None); continue };
